@@ -108,7 +108,7 @@ func clientTerm(c *refstore.Client) string {
 	if c.UseGlobs {
 		globs = emit.Some(emit.StrList(c.PostLogoutGlobs))
 	}
-	return emit.Ctor("Build_lclient", emit.Str(c.ID), emit.StrList(c.PostLogout), globs)
+	return emit.Ctor("Build_lclient", emit.Str(c.ID), emit.StrList(c.PostLogout), globs, emit.StrList(c.RedirectGlobs))
 }
 
 // ---------------------------------------------------------------- generators
@@ -134,9 +134,34 @@ func genClient(r drv.Rand, id string) *refstore.Client {
 		for i := 0; i < ng; i++ {
 			c.PostLogoutGlobs = append(c.PostLogoutGlobs, drv.Pick(r, plGlobPool))
 		}
+		// the globs for the AUTHORIZATION redirect_uri are another list: empty, the same, disjoint, overlapping
+		switch r.IntN(6) {
+		case 0:
+		case 1:
+			c.RedirectGlobs = append([]string{}, c.PostLogoutGlobs...)
+		case 2:
+			for i, n := 0, 1+r.IntN(2); i < n; i++ {
+				c.RedirectGlobs = append(c.RedirectGlobs, drv.Pick(r, authGlobPool))
+			}
+		case 3:
+			c.RedirectGlobs = append(append([]string{}, c.PostLogoutGlobs...), drv.Pick(r, authGlobPool))
+		case 4:
+			c.RedirectGlobs = []string{drv.Pick(r, authGlobPool)}
+			if len(c.PostLogoutGlobs) > 0 {
+				c.RedirectGlobs = append(c.RedirectGlobs, c.PostLogoutGlobs[0])
+			}
+		default:
+			for i, n := 0, 1+r.IntN(3); i < n; i++ {
+				c.RedirectGlobs = append(c.RedirectGlobs, drv.Pick(r, append(append([]string{}, plGlobPool...), authGlobPool...)))
+			}
+		}
 	}
 	return c
 }
+
+// globs a client registers for its authorization redirect_uri (doublestar syntax is legal there)
+var authGlobPool = []string{"https://app.example.com/cb/*", "https://evil.example/*", "https://app.example.com/*", "https://*.example.com/bye", "myapp://*",
+	"https://sub.example.com/*", "https://app.example.com/a/*", "https://app.example.com/**", "https://app.example.com/{cb,bye}x", "*", "https://[", "https://app.example.com/x/*/*", "urn:*"}
 
 // patternInstance: a string the registered URI reg would match if it were read as a
 // path.Match pattern (which nobody opted into). ok=false when reg has no metacharacter.
@@ -869,7 +894,7 @@ func (c esCase) optsHuman() []string {
 func clientsHuman(cs []*refstore.Client) []map[string]any {
 	var out []map[string]any
 	for _, c := range cs {
-		out = append(out, map[string]any{"id": c.ID, "post_logout": c.PostLogout, "use_globs": c.UseGlobs, "globs": c.PostLogoutGlobs})
+		out = append(out, map[string]any{"id": c.ID, "post_logout": c.PostLogout, "use_globs": c.UseGlobs, "globs": c.PostLogoutGlobs, "auth_redirect_globs": c.RedirectGlobs})
 	}
 	return out
 }
@@ -1024,6 +1049,11 @@ func genReq(r drv.Rand, c *esCase, tags map[string]bool) esReq {
 		}
 	case k < 8 && owner.UseGlobs:
 		q.uri, uriKind = drv.Pick(r, plShots), "globshot"
+		if len(owner.RedirectGlobs) > 0 && r.Bool() { // an instance of a glob registered for the authorization redirect only (or for both)
+			if u, ok := patternInstance(r, drv.Pick(r, owner.RedirectGlobs)); ok && strings.Contains(u, ":") {
+				q.uri, uriKind = u, "authglobshot"
+			}
+		}
 	default:
 		base := "https://app.example.com/bye"
 		if len(owner.PostLogout) > 0 {
@@ -1238,6 +1268,22 @@ func directed(w *emit.Writer) {
 				esReq{router: router, host: "op.example.com", hint: hintSpec{kind: "none"}, clientID: v, uri: "https://app.example.com/bye", state: "s"})
 		}
 		run(w, esCase{clients: cl, reqs: near, tags: []string{"directed=nearid", "router=" + router.String()}})
+		// the client's two glob lists differ: disjoint, overlapping, one of them empty, the same; URIs
+		// matching only the post-logout list, only the authorization list, both, neither
+		for _, gl := range [][2][]string{
+			{{"https://app.example.com/out/*"}, {"https://app.example.com/cb/*", "https://evil.example/*"}},
+			{{"https://app.example.com/out/*", "https://app.example.com/both/*"}, {"https://app.example.com/both/*", "https://app.example.com/cb/*"}},
+			{{"https://app.example.com/out/*"}, nil}, {nil, {"https://app.example.com/cb/*", "https://app.example.com/out/*"}},
+			{{"https://app.example.com/out/*"}, {"https://app.example.com/out/*"}}, {{"https://app.example.com/out/*"}, {"https://app.example.com/**", "https://["}},
+			{{"https://app.example.com/out/*"}, {"*"}}} {
+			gc := &refstore.Client{ID: "ks0", PostLogout: []string{"https://app.example.com/bye"}, UseGlobs: true, PostLogoutGlobs: gl[0], RedirectGlobs: gl[1]}
+			var seq []esReq
+			for _, u := range []string{"https://app.example.com/out/x", "https://app.example.com/cb/x", "https://evil.example/bye", "https://app.example.com/both/x", "https://app.example.com/none/x", "https://app.example.com/bye"} {
+				seq = append(seq, esReq{router: router, host: "op.example.com", hint: hintSpec{kind: "none"}, clientID: "ks0", uri: u},
+					esReq{router: router, host: "op.example.com", hint: h1, uri: u, state: "s"})
+			}
+			run(w, esCase{clients: []*refstore.Client{gc, other}, reqs: seq, tags: []string{"directed=globlists", "router=" + router.String()}})
+		}
 		// EXTRA parameters next to every hint kind, by GET, in a POST body, and split over body and
 		// query: logout_hint / unknown names naming another user, known names twice in both orders
 		for _, pl := range []string{"get", "post-body", "post-query", "post-split"} {
